@@ -35,7 +35,7 @@ func init() {
 		},
 		Run: run,
 		Floors: func(t string) map[string]int64 {
-			return map[string]int64{"geom.with_empty_member": 1000, "geom.empty_run>=2": 100, "geom.empty_collection": 50, "box.touching": 100, "box.empty_operand": 100, "box.sep_one_axis": 100, "box.extreme_extent": 500, "geom.long_path": 200, "geom.collections_nested_5_to_10_deep": 500, "storage.paths_share_one_backing_array": 3000, "geom.long_path>=4096": 60,
+			return map[string]int64{"geom.with_empty_member": 1000, "geom.empty_run>=2": 100, "geom.empty_collection": 50, "box.touching": 100, "box.empty_operand": 100, "box.sep_one_axis": 100, "box.extreme_extent": 500, "box.pair_meeting_at_an_infinity": 300, "geom.long_path": 200, "geom.collections_nested_5_to_10_deep": 500, "storage.paths_share_one_backing_array": 3000, "geom.long_path>=4096": 60,
 				"type.Point": 10, "type.MultiPoint": 10, "type.LineString": 10, "type.MultiLineString": 10, "type.Polygon": 10, "type.MultiPolygon": 10, "type.GeometryCollection": 10, "type.*Bounds": 10}
 		},
 	})
@@ -363,9 +363,7 @@ func randBox(r *gen.R) *geom.Bounds {
 		if r.Bool() {
 			y0, y1 = pick(), pick()
 		}
-		for (x0 == x1 && math.IsInf(x0, 0)) || (y0 == y1 && math.IsInf(y0, 0)) { // no box degenerate at infinity
-			x0, x1, y0, y1 = pick(), pick(), boxCoord(r), boxCoord(r)
-		}
+		// (a box may be degenerate at an infinity: the envelope of vertices that all have x = +Inf)
 	}
 	if r.Chance(0.1) && !math.IsInf(x0, 0) {
 		x1 = x0 // degenerate
@@ -407,6 +405,23 @@ func bstr(b *geom.Bounds) string {
 func runBoxes(c *core.Ctx) {
 	r := c.R
 	a, b, d := randBox(r), randBox(r), randBox(r)
+	if r.Chance(0.03) {
+		// one box degenerate at an infinity on one axis (the envelope of vertices that all have
+		// x = +Inf), the other reaching the same infinity on that axis; the other axis overlaps
+		inf := math.Inf(1 - 2*r.Intn(2))
+		y0 := boxCoord(r)
+		a = &geom.Bounds{Min: geom.Point{X: inf, Y: y0}, Max: geom.Point{X: inf, Y: y0 + float64(r.IntRange(0, 4))}}
+		o := []float64{boxCoord(r), 1e308 * float64(1-2*r.Intn(2)), inf}[r.Intn(3)]
+		b = &geom.Bounds{Min: geom.Point{X: math.Min(o, inf), Y: y0 - float64(r.IntRange(0, 2))}, Max: geom.Point{X: math.Max(o, inf), Y: y0 + float64(r.IntRange(0, 5))}}
+		if r.Bool() {
+			a.Min.X, a.Min.Y, a.Max.X, a.Max.Y = a.Min.Y, a.Min.X, a.Max.Y, a.Max.X
+			b.Min.X, b.Min.Y, b.Max.X, b.Max.Y = b.Min.Y, b.Min.X, b.Max.Y, b.Max.X
+		}
+		if r.Bool() {
+			a, b = b, a
+		}
+		c.Count("box.pair_meeting_at_an_infinity")
+	}
 	detail := map[string]interface{}{"a": bstr(a), "b": bstr(b), "c": bstr(d)}
 	c.Eval()
 	ea, eb := isEmpty(a), isEmpty(b)
